@@ -57,9 +57,10 @@ def ctx():
 
 
 class Decision:
-    __slots__ = ("taken", "other_feasible", "other_done", "ast_id", "term", "other_model")
+    __slots__ = ("taken", "other_feasible", "other_done", "ast_id", "term", "other_model", "hint")
 
-    def __init__(self, taken, other_feasible, term, other_model):
+    def __init__(self, taken, other_feasible, term, other_model, hint=None):
+        self.hint = hint
         self.taken = taken
         self.other_feasible = other_feasible
         self.other_done = False
@@ -183,7 +184,13 @@ class Ctx:
         raise Unsupported("model value " + str(v))
 
     # ---- decisions -----------------------------------------------------------------------
-    def decide(self, t):
+    def peek_hint(self):
+        """While re-executing a recorded prefix: the value a concretisation chose at this point the first time."""
+        if self.pos < len(self.decisions):
+            return self.decisions[self.pos].hint
+        return None
+
+    def decide(self, t, hint=None):
         """t: z3 BoolRef.  Returns the Python bool chosen on this path."""
         t = z3.simplify(t)
         if z3.is_true(t):
@@ -223,7 +230,7 @@ class Ctx:
                 side = False
                 self.model = None
                 # the path condition itself is feasible (invariant), so the False side is
-                d = Decision(False, False, t, None)
+                d = Decision(False, False, t, None, hint)
                 self.decisions.append(d)
                 self.pos += 1
                 self.solver.push()
@@ -233,7 +240,7 @@ class Ctx:
         of = self._check(other)
         if of:
             other_model = self._last_model
-        d = Decision(side, of, t, other_model)
+        d = Decision(side, of, t, other_model, hint)
         self.decisions.append(d)
         self.pos += 1
         self.solver.push()
@@ -252,6 +259,7 @@ class Ctx:
             d[key] = v
             if not self.replaying():
                 self.solver.add(v == term)
+            self.model = None   # the cached model does not interpret the new variable
         return v
 
     def assume(self, t):
@@ -944,9 +952,11 @@ class SymInt:
         c = ctx()
         n = 0
         while True:
-            v = c.get_model().eval(self.n, model_completion=True)
-            v = v.as_signed_long() if self.signed else v.as_long()
-            if c.decide(self.n == v):
+            v = c.peek_hint()
+            if v is None:
+                v = c.get_model().eval(self.n, model_completion=True)
+                v = v.as_signed_long() if self.signed else v.as_long()
+            if c.decide(self.n == v, hint=v):
                 return v
             n += 1
             if n > c.max_concretise:
@@ -1160,3 +1170,15 @@ def sym_ite(c, a, b):
 
 def sym_max(a, b):
     return sym_ite(a >= b, a, b)
+
+
+def sym_choice(name, options):
+    """Solver-chosen element of a finite list (forks once per feasible option)."""
+    options = list(options)
+    if len(options) == 1:
+        record_const(name, 0)
+        return options[0]
+    i = sym_int(name, 0, len(options) - 1)
+    if isinstance(i, SymInt):
+        i = i.concretise()
+    return options[i]
